@@ -77,7 +77,12 @@ class C06(Prop):
         term = rng.choice([lang.N('abs', lang.V(a)), lang.N('add', lang.V(a), lang.C(1.0)), lang.N('neg', lang.V(a)),
                            lang.N('mul', lang.V(a), lang.C(2.0)), lang.N('sub', lang.C(3.0), lang.V(a))])
         e = lang.V('sa')
-        mixed = lang.N(rng.choice(['sub', 'add', 'mul', 'sub']), *rng.sample([e, lang.V(b)], 2))
+        mop = rng.choice(['sub', 'add', 'mul', 'sub', 'div', 'div'])
+        if mop == 'div':
+            # (the divisor is kept away from 0: |b| + 1)
+            mixed = lang.N('div', e, lang.N('add', lang.N('abs', lang.V(b)), lang.C(1.0)))
+        else:
+            mixed = lang.N(mop, *rng.sample([e, lang.V(b)], 2))
         p1 = lang.N(rng.choice(['geq', 'leq', 'gt', 'lt']), mixed, lang.C(rng.choice([0.0, 1.0, 2.0])))
         p2 = lang.N(rng.choice(['geq', 'leq', 'gt', 'lt']), e, lang.C(rng.choice([0.0, 1.0, 2.0])))
         if rng.random() < 0.5:
